@@ -51,6 +51,20 @@ def run(ctx, which):
                               "access to the timestamp store", {"output": msg[-3000:]})
         else:
             raise
+    # the same with the model capacity 2 (store pre-filled): evictions, stateless
+    # service and removals of other listeners' clients race with the updates
+    try:
+        tp, out = ctx.godriver("c06", "TestConcurrent", out_name="traceCB.ndjson",
+                               env={"VERIF_CAP": "2", "VERIF_ROUNDS": "10" if q else "120"})
+        traces.append(("B", "concurrent-full", tp, 10 if q else 120))
+    except vlib.Inconclusive as e:
+        msg = str(e)
+        if ("fatal error: concurrent map" in msg or "DATA RACE" in msg or "panic:" in msg) and "scion-time/core/server" in msg:
+            if which == "C07":
+                ctx.violation("C07 concurrent-crash", "the 16-goroutine driver (full store) died in core/server",
+                              {"output": msg[-3000:]})
+        else:
+            raise
     if not q:
         tp, out = ctx.godriver("c06", "TestConcurrent", out_name="traceCr.ndjson", race=True,
                                env={"VERIF_CAP": "0", "VERIF_ROUNDS": "40"}, timeout=1500)
